@@ -240,7 +240,10 @@ def gen_equiv(seed: int, profile: str):
         st["suffix"] = "_rq"
         if any(n + "_rq" in cur.names() for n in right.names()):
             return _fallback(g, cur, profile)
-        cj = S(id=T(), op="join", src=t, right=right.tid, on=[], how="inner", suffix="_rq")
+        if r.random() < 0.5:
+            cj = S(id=T(), op="cross_join", src=t, right=right.tid, suffix="_rq")       # the verb itself
+        else:
+            cj = S(id=T(), op="join", src=t, right=right.tid, on=[], how="inner", suffix="_rq")
         b = S(id=T(), op="filter", src=cj, preds=list(st["on"]))
         pair(st["id"], b)
     elif kind == "map_when":
